@@ -488,6 +488,12 @@ TEXT_EDITS = [
     ('mps.py', "        if len(self.A) == 0:\n            return 1\n\n        if mode == 'left':\n            for i in range(len(self.A) - 1):\n                self.A[i], self.A[i+1], self.qD[i+1] = local_orthonormalize_left_qr(self.A[i], self.A[i+1], self.qd, self.qD[i:i+2])",
      "        if len(self.A) == 0:\n            return 1\n        if len(self.A) == 1 and self.A[0].size == 1:\n            return abs(self.A[0].item())\n        if mode == 'left':\n            for i in range(len(self.A) - 1):\n                self.A[i], self.A[i+1], self.qD[i+1] = local_orthonormalize_left_qr(self.A[i], self.A[i+1], self.qd, self.qD[i:i+2])",
      'violation', ['C01'], 'MPS.orthonormalize: early return that bypasses the sweep'),
+    ('opgraph.py', '                    if len(node1.eids[direction]) != 1:\n                        continue\n                    if len(node2.eids[direction]) != 1:\n                        continue',
+     '                    if len(node1.eids[direction]) != 1 or len(node2.eids[direction]) != 1:\n                        continue',
+     'silent', ['C16'], '_simplify_step: two skip guards merged with `or` (benign)'),
+    ('opgraph.py', '                    if len(node1.eids[direction]) != 1:\n                        continue\n                    if len(node2.eids[direction]) != 1:\n                        continue',
+     '                    if len(node1.eids[direction]) != 1 and len(node2.eids[direction]) != 1:\n                        continue',
+     'violation', ['C16'], '_simplify_step: two skip guards merged with `and`'),
     ('mps.py', '            v = v * s[:, None]', '            v = np.diag(s) @ v', 'silent', ['C13', 'C02'],
      'from_vector: singular values applied as a diagonal matrix (benign)'),
     ('mps.py', '            mps.qD[i + 1] = np.zeros(len(s), dtype=int)', '            mps.qD[i + 1] = np.zeros(len(idx), dtype=int)', 'silent',
